@@ -37,7 +37,14 @@ pub fn generate(rng: &mut Rng, idx: usize, _tier: Tier) -> CaseOut {
                 break c;
             }
         };
-        let pattern = if rng.chance(1, 5) { Some("id=(?P<value>[a-z]+)".to_string()) } else { None };
+        // patterns whose match depends on the untrimmed content (leading newline / indentation / trailing newline)
+        let pattern = match rng.below(8) {
+            0 => Some("id=(?P<value>[a-z]+)".to_string()),
+            1 => Some("^\\s+(?P<value>\\S+)".to_string()),
+            2 => Some("(?s)^\\n.*\\n$".to_string()),
+            3 => Some("[a-z]+\\s*$".to_string()),
+            _ => None,
+        };
         let beh = if b == fault_at && fault_kind <= 5 {
             match fault_kind {
                 0 => Behavior::Status([400u16, 401, 404][rng.below(3)], true),
